@@ -100,6 +100,50 @@ def gen_interleaved_tree(rng, RG):
     return xml, upper
 
 
+def gen_numa_packages(rng, RG):
+    """K packages (sometimes below two Groups) with one NUMA node each, some nodes other than node 0 disallowed: loaded
+    with RESTRICT_TO_MEMBINDING while this thread's memory is really bound to node 0 (seeded change C01n: the
+    restriction by nodeset skipped objects that hold a dropped node only in their complete_nodeset)."""
+    k = rng.choice([3, 3, 4, 5])
+    root = RG.Node("Machine", 0)
+    groups = None
+    if rng.random() < 0.4:
+        groups = [RG.Node("Group", 0), RG.Node("Group", 1)]
+        root.n += groups
+    for p in range(k):
+        pk = RG.Node("Package", p)
+        for j in range(2):
+            pk.n.append(RG.Node("PU", 2 * p + j))
+        nn = RG.Node("NUMANode", p)
+        nn.attrs["local_memory"] = str(1 << 20)
+        pk.m.append(nn)
+        (groups[0 if p < (k + 1) // 2 else 1] if groups else root).n.append(pk)
+
+    def fill(o):
+        o.cs = (1 << o.os) if o.ty == "PU" else 0
+        o.nds = 0
+        for c in o.n:
+            fill(c)
+            o.cs |= c.cs
+            o.nds |= c.nds
+        for c in o.m:
+            c.nds = 1 << c.os
+            o.nds |= c.nds
+        for c in o.m:
+            c.cs = o.cs
+        return o
+    fill(root)
+
+    def packages(o):
+        return [o] if o.ty == "Package" else [q for c in o.n for q in packages(c)]
+    for pk in packages(root):
+        for pu in pk.n:
+            pu.nds = pk.nds
+    drop = rng.sample(range(1, k), rng.randint(1, k - 2))
+    ands = root.nds & ~sum(1 << b for b in drop)
+    return RG.tree_to_xml(root, allowed_nds=ands)
+
+
 def gen_chain_tree(rng, RG):
     """Level-merging stress (seeded change C01c): K columns below Machine, each a chain of single-child levels
     of the same type sequence (a column may skip a level) ending in one or two PUs; memory children are attached
@@ -313,6 +357,16 @@ def make_cases(run, scratch):
                 cfg += ["filter 19 0"] + (["filter 16 0", "filter 17 0", "filter 18 0"] if rng.random() < 0.7 else []) + (["filter 15 0"] if rng.random() < 0.7 else [])
             cfg += ["flags %d" % flag_choices(rng, "xml")]
             cases.append(("chainxml:%d|%s" % (i, ";".join(cfg)), ["env HWLOC_LIBXML_IMPORT %d" % (i % 2)] + cfg + ["src xml " + path], "genxml"))
+        # memory binding: the thread is really bound to node 0, sources with disallowed nodes (own random stream)
+        mrng = random.Random("membind-%s" % run.seed)
+        for i in range(12 if quick else 300):
+            xml = gen_numa_packages(mrng, RG)
+            path = os.path.join(scratch.dir, "numapk%d.xml" % i)
+            with open(path, "w") as f:
+                f.write(xml)
+            fl = 2 | 32 | (16 if mrng.random() < 0.3 else 0) | (1 if mrng.random() < 0.15 else 0)
+            cfg = (["filter 13 0"] if mrng.random() < 0.5 else []) + ["membindself 0", "flags %d" % fl]
+            cases.append(("numapkxml:%d|%s" % (i, ";".join(cfg)), ["env HWLOC_LIBXML_IMPORT %d" % (i % 2)] + cfg + ["src xml " + path], "restrict-to-binding"))
         # interleaved numbering + disallowed PUs + the upper levels under KEEP_STRUCTURE (own random stream: adding
         # cases here does not shift the other streams)
         irng = random.Random("interleaved-%s" % run.seed)
@@ -630,6 +684,8 @@ def script_of(indexed):
         out.append("phases 2" if trace_inserts(name, kind) else "phases 3" if light_trace(name, kind) else "phases 1")
         if not any(l.startswith("bindself ") for l in lines):
             out.append("bindself all")
+        if not any(l.startswith("membindself ") for l in lines):
+            out.append("membindself default")
         for var in ("HWLOC_USE_NUMA_DISTANCES",):      # several cases share one process: no leftovers from the previous one
             if not any(l.startswith("env " + var) for l in lines):
                 out.append("env " + var)
